@@ -3,6 +3,7 @@
 -/
 import XonshVerif.Model.Wire
 import XonshVerif.Model.Peg
+import XonshVerif.Model.WireProg
 import XonshVerif.Generated.ParserIR
 namespace XV.Driver
 open XV XV.Wire XV.Peg
@@ -29,6 +30,25 @@ def handleParse (fs : List String) (verbose : Bool := false) : String :=
     let (o, s1, _, r1) := parse Gen.prog w (nat fuel) (nat rid) verbose
     let first := match r1 with | .ok _ => "ok" | .fail _ => "fail" | .raised => "raised" | .undecided => "undecided" | .tokErr => "tokerr" | .outOfFuel => "fuel"
     s!"{encOutcome o} first={first} pos={s1.pos} fetched={s1.fetched} peeks={s1.peeks} nexts={s1.nexts} resets={s1.resets} assumed={s1.assumed}"
+  | _ => "bad-request"
+
+/-- `parsep <rule id> <fuel> # <program> ## tok*` : run one rule of a program sent over the wire (first pass,
+    `call_invalid_rules = False`) → `ok <end>` / `fail` / `raised` / `undecided` / `tokerr` / `fuel` -/
+def handleParseProg (fs : List String) : String :=
+  match fs with
+  | rid :: fuel :: "#" :: rest =>
+    match WireProg.readProg rest with
+    | some (prog, "##" :: toks) =>
+      let w : Array RTok := (toks.map readRTok).toArray
+      let (r, s) := execRule prog w (nat fuel) (nat rid) (St.init w.size false)
+      match r with
+      | .ok _ => s!"ok {s.pos}"
+      | .fail _ => "fail"
+      | .raised => "raised"
+      | .undecided => "undecided"
+      | .tokErr => "tokerr"
+      | .outOfFuel => "fuel"
+    | _ => "bad-program"
   | _ => "bad-request"
 
 end XV.Driver
